@@ -129,3 +129,50 @@ class EdgeValidatePositions(Contract):
         pre = [slen[n] >= 1 for n in "12"] + [P[f].v >= 0 for f in P]
         return [Case("positions", [e], post, pre=pre, heap=heap, models=models, symbols=sym, minimize=[slen["1"], slen["2"]],
                      replay=lambda w: {"target": "bounded.replay_helpers:edge_dollar_cases"}, confirm=battery_confirm)]
+
+
+@register
+class ValidateInterval(Contract):
+    fn = "gfapy/line/edge/gfa2/validation.py::validate_interval"
+    props = ("C04", "C07")
+    doc = ("the two positions of an interval, on the line itself (E and F lines, connected or not): ValueError iff begin > end; FormatError iff "
+           "begin <= end, begin is marked `$` and end is not that same marked position (a segment has one last position); nothing else is "
+           "raised and every other pair of parsed positions is accepted")
+
+    def cases(self, ctx):
+        g = ctx.gfapy
+        b, e = pos("b"), pos("e")
+        table = [(g.ValueError, b.v > e.v), (g.FormatError, z3.And(b.v <= e.v, b.last, z3.Or(z3.Not(e.last), e.v != b.v)))]
+        def post(k, v, st):
+            return raises_iff(k, v, table, lambda r: z3.BoolVal(r is None))
+        return [Case("pos", [Obj(g.Line, "line"), b, e], post, pre=[b.v >= 0, e.v >= 0], symbols={"b": b, "e": e}, models=common.lastpos_models(ctx), minimize=[b.v, e.v],
+                     replay=lambda w: {"target": "gfapy.line.edge.gfa2.validation:validate_interval", "args": [None, w["b"], w["e"]]})]
+
+
+def _interval_callers(cls_path, label, fields_):
+    class VI(Contract):
+        id = "ValidateIntervals_" + label
+        fn = cls_path
+        props = ("C04",)
+        doc = "%s lines: validation checks each of the two intervals (%s) with validate_interval, nothing else" % (label, ", ".join("%s/%s" % p for p in fields_))
+
+        def cases(self, ctx):
+            g = ctx.gfapy
+            s = Obj(g.Line, "line")
+            vals = {f: Obj(None, f) for p in fields_ for f in p}
+            def m_get(E, st, pos_, kw):
+                yield ("val", vals[conc(pos_[1])], [])
+            def m_vi(E, st, pos_, kw):
+                pair = tuple(k for k, v in vals.items() if v is pos_[1] or v is pos_[2])
+                yield ("val", None, [], ev(st, pair if pos_[0] is s else ("wrong-line",)))
+            from .connect import ev
+            models = {ctx.fn("gfapy/line/common/field_data.py::FieldData.get"): m_get, ctx.fn("gfapy/line/edge/gfa2/validation.py::validate_interval"): m_vi}
+            def post(k, v, st):
+                return z3.BoolVal(k == "return" and tuple(st.ghost.get("events", ())) == tuple(tuple(p) for p in fields_))
+            return [Case("calls", [s], post, heap={s.oid: {}}, models=models)]
+    VI.__name__ = VI.id
+    return register(VI)
+
+
+_interval_callers("gfapy/line/edge/gfa2/validation.py::Validation._validate_record_type_specific_info", "E", (("beg1", "end1"), ("beg2", "end2")))
+_interval_callers("gfapy/line/fragment/validation.py::Validation._validate_record_type_specific_info", "F", (("s_beg", "s_end"), ("f_beg", "f_end")))
